@@ -485,6 +485,18 @@ func (x *cliExec) runStep(i int, rs *runStep) {
 			spec.Stdin.File, spec.Stdin.Offset = rs.Stdin, int64(rs.StdinOffset)
 		}
 	}
+	for _, a := range rs.Argv {
+		if strings.HasPrefix(a, cliFifo+"/") {
+			x.probe("input_given_as_named_pipe")
+			break
+		}
+	}
+	for _, a := range rs.Argv {
+		if strings.Contains(a, "\\x") {
+			x.probe("option_value_with_bytes_that_are_not_utf8")
+			break
+		}
+	}
 	core.Current = x.sc
 	core.Tick()
 	r := runGts(x.w, rs.Argv, spec)
